@@ -391,6 +391,7 @@ func limGrid(level int) []limCfg {
 		{algo: "aimd", initial: 4, backoff: 0.9, incr: 1},
 		{algo: "aimd", initial: 10, backoff: 0.5, incr: 2},
 		{algo: "aimd", initial: 3, backoff: 1.0, incr: 1},
+		{algo: "aimd", initial: 11, backoff: 0.9, incr: 3}, // 11 x 0.9 = 9.9: the back-off truncates
 		{algo: "vegas", initial: 4, max: 10, smoothing: 1.0, probe: 2},
 		{algo: "vegas", initial: 4, max: 10, smoothing: 0.2, probe: 30},
 		{algo: "vegas", initial: 12, max: 10, smoothing: 1.0, probe: 1},
